@@ -470,9 +470,7 @@ Proof.
   destruct (run_status (session_ x1) pi) as [[]|];
     try (intros <-; simpl; eapply paths_ok_same; [| |exact H1]; reflexivity).
   destruct (negb match run_status (session_ x1) c with Some RFailed => true | _ => false end).
-  - destruct (match get_run (session_ x1) pi with
-              | Some r0 => match get_flow a (r_flow r0) with Some _ => false | None => true end
-              | None => true end).
+  - destruct (run_flow_unusable a (session_ x1) pi).
     + intros <-. simpl. split; [apply Hfail; exact H1|apply pend_no_exit; exact He].
     + destruct (find_resume_exit a x1 pi false []) as [y e op|y|y|] eqn:Efre; try (intros <-; exact I).
       * destruct (find_resume_exit_paths _ _ _ _ _ _ _ _ Hv H1 Efre) as (Hf & Hp & Hl).
@@ -920,9 +918,7 @@ Proof.
       destruct (run_status (session_ y1) pi) as [[]|];
         try (intros <-; simpl; eapply flows_known_same; [| |exact Hy1]; reflexivity).
       destruct (negb match run_status (session_ y1) c with Some RFailed => true | _ => false end).
-      - destruct (match get_run (session_ y1) pi with
-                  | Some r0 => match get_flow a (r_flow r0) with Some _ => false | None => true end
-                  | None => true end); [intros <-; apply Hfail|].
+      - destruct (run_flow_unusable a (session_ y1) pi); [intros <-; apply Hfail|].
         pose proof (find_resume_exit_fl a y1 pi false []) as Kf. pose proof (find_resume_exit_shape a y1 pi false []) as Ks.
         destruct (find_resume_exit a y1 pi false []) as [z e op|z|z|]; try (intros <-; exact I).
         + intros <-. simpl. eapply flows_known_same; [exact Kf| |exact Hy1].
